@@ -166,8 +166,9 @@ class Run:
         if self.machinery_errors:
             for m in self.machinery_errors[:10]:
                 print('MACHINERY-ERROR:', m, file=sys.stderr)
-            print(f'{self.prop}: machinery failure ({len(self.machinery_errors)})')
-            return 2
+            if not viol:      # a failing real execution is a violation whatever else went wrong around it
+                print(f'{self.prop}: machinery failure ({len(self.machinery_errors)})')
+                return 2
         if viol:
             per = {}
             for f in viol:
